@@ -87,5 +87,16 @@ def run(prog: Program) -> Results:
             res.add(f.rule, f.key, f.where, f.message)
     res.analysed_functions |= sub.analysed_functions
     res.tables += sub.tables
+    # ---------------------------------------------------------------- R-C05-4 (shared with R-C10-5)
+    from sa.rules import c10
+    sub10 = c10.run(prog)
+    st = sub10.rules.get("R-C10-5")
+    r4 = res.rule("R-C05-4", "a set through a reference lands on the binding the resolver designates: chains continue with the "
+                  "chain cut at the layer where the binding was found (shared with R-C10-5)", floor=6)
+    if st:
+        r4.instances, r4.obligations, r4.discharged = st.instances, st.obligations, st.discharged
+    for fnd in sub10.findings:
+        if fnd.rule == "R-C10-5":
+            res.add("R-C05-4", fnd.key, fnd.where, fnd.message)
     res.assumptions = ["the value read back equals VALUE, intermediate-set creation and pruning are runtime effects not decided here"]
     return res
